@@ -11,6 +11,7 @@ import (
 	"sort"
 	"strings"
 	"testing"
+	"time"
 
 	"github.com/gotid/god/api/httpx"
 	"github.com/gotid/god/api/pathvar"
@@ -28,10 +29,6 @@ type verifC03Route struct {
 	P string `json:"p"`
 }
 
-type verifC03Group struct {
-	Prefix *string         `json:"prefix"` // nil: no WithPrefix option
-	Routes []verifC03Route `json:"routes"`
-}
 
 // verifC03Req: Raw != "" builds the request from the raw target (net/http decodes it into URL.Path).
 type verifC03Req struct {
@@ -40,11 +37,29 @@ type verifC03Req struct {
 	Raw string `json:"raw"`
 }
 
+// verifC03Opt is one RouteOption of a mount: prefix (WithPrefix(V)), timeout, maxbytes, priority,
+// signature (WithSignature of an empty, non-strict config).
+type verifC03Opt struct {
+	O string `json:"o"`
+	V string `json:"v"`
+}
+
+// verifC03Mount registers the caller's slice Slices[Slice] (the same []Route value every time it is
+// mounted) with the options in order; MW > 0 wraps it with WithMiddlewares first; Single uses
+// Server.AddRoute for a one-element slice.
+type verifC03Mount struct {
+	Slice  int           `json:"slice"`
+	Opts   []verifC03Opt `json:"opts"`
+	MW     int           `json:"mw"`
+	Single bool          `json:"single"`
+}
+
 type verifC03Case struct {
-	Kind   string          `json:"kind"`
-	Via    string          `json:"via"` // engine | server
-	Groups []verifC03Group `json:"groups"`
-	Reqs   []verifC03Req   `json:"reqs"`
+	Kind   string            `json:"kind"`
+	Via    string            `json:"via"` // engine | server
+	Slices [][]verifC03Route `json:"slices"`
+	Mounts []verifC03Mount   `json:"mounts"`
+	Reqs   []verifC03Req     `json:"reqs"`
 }
 
 type verifC03Call struct {
@@ -117,34 +132,73 @@ func TestVerifDriverC03(t *testing.T) {
 		} else {
 			ng, rt = newEngine(conf), router.NewRouter()
 		}
+		// the caller's route slices: handler id = index of the element over all slices
 		id := 0
-		for _, g := range c.Groups {
-			rs := make([]Route, len(g.Routes))
-			for i, r := range g.Routes {
+		slices := make([][]Route, len(c.Slices))
+		for si, sl := range c.Slices {
+			slices[si] = make([]Route, len(sl))
+			for i, r := range sl {
 				hid := id
 				id++
-				rs[i] = Route{Method: r.M, Path: r.P, Handler: func(w http.ResponseWriter, r *http.Request) {
+				slices[si][i] = Route{Method: r.M, Path: r.P, Handler: func(w http.ResponseWriter, r *http.Request) {
 					hids = append(hids, hid)
 					vars = pathvar.Vars(r)
 				}}
 			}
+		}
+		pass := func(next http.HandlerFunc) http.HandlerFunc {
+			return func(w http.ResponseWriter, r *http.Request) { next(w, r) }
+		}
+		for _, m := range c.Mounts {
+			if m.Slice < 0 || m.Slice >= len(slices) {
+				return map[string]any{"error": "bad slice index"}
+			}
+			rs := slices[m.Slice]
+			if m.MW > 0 {
+				mws := make([]Middleware, m.MW)
+				for k := range mws {
+					mws[k] = pass
+				}
+				rs = WithMiddlewares(mws, rs...)
+			}
+			opts := []RouteOption{}
+			for _, o := range m.Opts {
+				switch o.O {
+				case "prefix":
+					opts = append(opts, WithPrefix(o.V))
+				case "timeout":
+					opts = append(opts, WithTimeout(time.Minute))
+				case "maxbytes":
+					opts = append(opts, WithMaxBytes(1<<20))
+				case "priority":
+					opts = append(opts, WithPriority())
+				case "signature":
+					opts = append(opts, WithSignature(SignatureConfig{}))
+				}
+			}
 			switch {
-			case srv != nil && g.Prefix != nil:
-				srv.AddRoutes(rs, WithPrefix(*g.Prefix))
+			case srv != nil && m.Single && len(rs) == 1:
+				srv.AddRoute(rs[0], opts...)
 			case srv != nil:
-				srv.AddRoutes(rs)
+				srv.AddRoutes(rs, opts...)
 			default:
 				fr := featuredRoutes{routes: rs}
-				if g.Prefix != nil {
-					WithPrefix(*g.Prefix)(&fr)
+				for _, opt := range opts {
+					opt(&fr)
 				}
 				ng.addRoutes(fr)
 			}
 		}
-		paths := []string{}
-		for _, fr := range ng.routes {
-			for _, r := range fr.routes {
-				paths = append(paths, r.Path)
+		routes := []verifC03Route{}
+		if srv != nil {
+			for _, r := range srv.Routes() {
+				routes = append(routes, verifC03Route{M: r.Method, P: r.Path})
+			}
+		} else {
+			for _, fr := range ng.routes {
+				for _, r := range fr.routes {
+					routes = append(routes, verifC03Route{M: r.Method, P: r.Path})
+				}
 			}
 		}
 		calls := []verifC03Call{}
@@ -181,6 +235,14 @@ func TestVerifDriverC03(t *testing.T) {
 			sort.Strings(o.Allow)
 			res[i] = o
 		}
-		return map[string]any{"err": berr, "paths": paths, "calls": calls, "res": res}
+		// the caller's slices as they look after registration and start-up
+		after := make([][]verifC03Route, len(slices))
+		for si, sl := range slices {
+			after[si] = make([]verifC03Route, len(sl))
+			for i, r := range sl {
+				after[si][i] = verifC03Route{M: r.Method, P: r.Path}
+			}
+		}
+		return map[string]any{"err": berr, "routes": routes, "calls": calls, "after": after, "res": res}
 	})
 }
